@@ -21,6 +21,7 @@ func runC17(c *Ctx) {
 	c.Rule("P3 success-implies-frame: every success return of the methods of container.Parser reachable from parse is reached only through a block that appends to Parser.frames or through a branch whose condition tests len(Parser.frames) or the animation flag")
 	c.Rule("P4 single reader: Decode, DecodeConfig and GetFeatures hand the input bytes to container.NewParser only")
 	c.Rule("P6 short reads are not hidden: a pre-sized buffer filled by io.ReadFull is returned only together with ReadFull's own error value (or re-sliced to the count read)")
+	c.Rule("P7 parses the input only: every byte slice a function of the container parser hands to another one is a re-slice of what it received, never a buffer it allocated or extended itself")
 	c.Rule("P5 input untouched: the container parser never appends to, stores into, copies over or clears its input slice or anything re-sliced from it")
 	c.NotCovered("behaviour of the VP8/VP8L/ALPH decoders on a payload that is shorter than its own internal structure needs (bit-reader end-of-stream handling): value-level, needs execution")
 	c.NotCovered("files cut inside the image chunk whose remaining bytes still satisfy the container checks are rejected by P1 only because the declared chunk size no longer fits; prefixes cut exactly at a chunk boundary after the image chunk parse to the same frames")
@@ -40,6 +41,7 @@ func runC17(c *Ctx) {
 		c17SuccessFrame(c, p)
 		c17SingleReader(c, p)
 		c17InputUntouched(c, p)
+		c17ParsesInputOnly(c, p)
 		c17ShortReads(c, p)
 	}
 }
@@ -569,4 +571,77 @@ func c17SingleReader(c *Ctx, p *Program) {
 		}
 		c.Check(bad == "" && nuse > 0, "P4-single-reader", "webp."+name, p.Pos(fn.Pos()), "the input bytes reach only container.NewParser", "the entry point reads the input outside the container parser: "+bad)
 	}
+}
+
+// ---- P7: the parser parses the input, not a buffer of its own ----
+//
+// Every byte slice one function of the container parser hands to another is a re-slice of what it
+// received itself. A buffer the parser allocates (make, append, a padded copy) contains bytes the file
+// does not have: a prefix then parses like a longer file.
+func c17ParsesInputOnly(c *Ctx, p *Program) {
+	fam := map[*ssa.Function]bool{}
+	for _, f := range parseFamily(c, p) {
+		fam[f] = true
+	}
+	n := 0
+	for fn := range fam {
+		for _, b := range fn.Blocks {
+			for _, in := range b.Instrs {
+				call, ok := in.(*ssa.Call)
+				if !ok {
+					continue
+				}
+				cal := call.Call.StaticCallee()
+				if cal == nil || !fam[cal] {
+					continue
+				}
+				for ai, a := range call.Call.Args {
+					sl, ok := a.Type().Underlying().(*types.Slice)
+					if !ok || types.TypeString(sl.Elem(), nil) != "byte" {
+						continue
+					}
+					n++
+					own := ownBuffer(a, 0)
+					key := fmt.Sprintf("%s->%s#arg%d", fn.Name(), cal.Name(), ai)
+					c.Check(own == "", "P7-parses-input", key, p.Pos(call.Pos()), "the bytes handed on are a re-slice of the bytes received",
+						fmt.Sprintf("%s hands %s a buffer it built itself (%s) instead of a re-slice of its input: bytes the file does not contain are parsed, so a truncated file can parse like a complete one", fn.Name(), cal.Name(), own))
+				}
+			}
+		}
+	}
+	c.Floor("P7-parses-input", n, 3)
+}
+
+// ownBuffer: "" when the slice is a re-slice of a parameter or field; otherwise what allocated it.
+func ownBuffer(v ssa.Value, depth int) string {
+	if depth > 8 {
+		return ""
+	}
+	switch x := v.(type) {
+	case *ssa.MakeSlice:
+		return "make"
+	case *ssa.Slice:
+		return ownBuffer(x.X, depth+1)
+	case *ssa.Call:
+		if bi, ok := x.Call.Value.(*ssa.Builtin); ok && bi.Name() == "append" {
+			return "append"
+		}
+	case *ssa.Phi:
+		for _, e := range x.Edges {
+			if s := ownBuffer(e, depth+1); s != "" {
+				return s
+			}
+		}
+	case *ssa.UnOp:
+		if al, ok := x.X.(*ssa.Alloc); ok && x.Op == token.MUL {
+			for _, ref := range *al.Referrers() {
+				if s, ok := ref.(*ssa.Store); ok && s.Addr == ssa.Value(al) {
+					if o := ownBuffer(s.Val, depth+1); o != "" {
+						return o
+					}
+				}
+			}
+		}
+	}
+	return ""
 }
